@@ -294,6 +294,9 @@ struct Out {
     returned: Vec<LF>,
     before: BTreeSet<LF>,
     explicit_tags: usize,
+    /// first disagreement between TagStore::encode_as_rdf_star and recover_probability
+    export_problem: Option<Value>,
+    exported: usize,
 }
 
 struct Built {
@@ -356,7 +359,44 @@ fn run_mode<P: Provenance, X>(inst: &Inst, order_seed: u64, prov: P, extra: impl
     r?;
     let returned: Vec<LF> = facts.iter().map(|t| decode_triple(&re, t)).collect();
     let x = extra(&re, &tags);
-    Ok((Out { probs, returned, before, explicit_tags: tags.len() }, x))
+    // the path by which probabilities reach the user: << s p o >> prob:value "p"^^xsd:double
+    let mut export_problem = None;
+    let mut exported = 0;
+    let ex = guard(|| {
+        let mut qt = shared::quoted_triple_store::QuotedTripleStore::new();
+        let out = {
+            let mut dict = re.dictionary.write().unwrap();
+            tags.encode_as_rdf_star(&mut dict, &mut qt)
+        };
+        let mut rows = vec![];
+        for t in &out {
+            let inner = qt.decode(t.subject).map(|(s, p, o)| decode_triple(&re, &Triple { subject: s, predicate: p, object: o }));
+            let lit = re.dictionary.read().unwrap().decode(t.object).map(|s| s.to_string());
+            rows.push((inner, lit));
+        }
+        rows
+    });
+    match ex {
+        Err(e) => export_problem = Some(json!({"panic": e})),
+        Ok(rows) => {
+            exported = rows.len();
+            if rows.len() != tags.len() {
+                export_problem = Some(json!({"exported_rows": rows.len(), "explicit_tags": tags.len()}));
+            }
+            for (inner, lit) in rows {
+                let val: Option<f64> = lit.as_ref().and_then(|l| l.strip_prefix('"')).and_then(|l| l.split('"').next()).and_then(|v| v.parse().ok());
+                let want = inner.as_ref().and_then(|f| probs.get(f)).copied();
+                let same = match (val, want) {
+                    (Some(a), Some(b)) => a == b,
+                    _ => false,
+                };
+                if !same && export_problem.is_none() {
+                    export_problem = Some(json!({"quoted_triple": inner.as_ref().map(lf_str), "literal": lit, "recovered_probability": want}));
+                }
+            }
+        }
+    }
+    Ok((Out { probs, returned, before, explicit_tags: tags.len(), export_problem, exported }, x))
 }
 
 // ------------------------------------------------------------------------------------------
@@ -382,6 +422,8 @@ struct Stats {
     explicit_tags: u64,
     formula_world_checks: u64,
     zero_probability_facts_present: u64,
+    formulas_differ_syntactically_between_identical_runs: u64,
+    exported_rows: u64,
 }
 
 fn expected_for(mode: Mode, w: &Worlds, weights: &[f64], probs: &[f64], fi: usize) -> f64 {
@@ -464,6 +506,10 @@ fn compare(mode: Mode, inst: &Inst, w: &Worlds, weights: &[f64], out: &Out, st: 
         st.returned_differs_from_store_delta += 1;
     }
     st.explicit_tags += out.explicit_tags as u64;
+    st.exported_rows += out.exported as u64;
+    if let Some(p) = &out.export_problem {
+        push("rdf_star_export_differs_from_recovered_probability", "n/a", None, p.clone(), findings);
+    }
 }
 
 /// DNF only: evaluate every stored formula in every world through `seed_triples`.
@@ -571,8 +617,12 @@ fn evaluate(inst: &Inst, w: &Worlds, order_seed: u64, modes: &[Mode], formula_le
                                     if dump2.seeds != dump.seeds {
                                         findings.push(Finding { mode: mode.name(), kind: "seed_numbering_varies_between_identical_runs".into(), direction: "n/a", fact: None, detail: json!({"first": dump.seeds.iter().map(lf_str).collect::<Vec<_>>(), "second": dump2.seeds.iter().map(lf_str).collect::<Vec<_>>()}) });
                                     } else if dump2.formulas != dump.formulas {
-                                        let f = dump.formulas.iter().find(|(k, v)| dump2.formulas.get(*k) != Some(*v)).map(|(k, _)| k.clone());
-                                        findings.push(Finding { mode: mode.name(), kind: "formulas_vary_between_identical_runs".into(), direction: "n/a", fact: f.clone(), detail: json!({"fact": f.as_ref().map(lf_str)}) });
+                                        // syntactically different formulas may be equivalent (DNF with
+                                        // negation is not canonical): judged by the worlds, like the first
+                                        st.formulas_differ_syntactically_between_identical_runs += 1;
+                                        if !findings.iter().any(|f| f.mode == mode.name() && f.kind.starts_with("formula_")) {
+                                            check_dnf_formulas(inst, w, &dump2, st, &mut findings);
+                                        }
                                     }
                                 }
                                 Err(e) => findings.push(Finding { mode: mode.name(), kind: format!("panic@{}", panic_site(&e)), direction: "n/a", fact: None, detail: json!({"panic": e, "run": "repeat"}) }),
@@ -866,19 +916,22 @@ fn features(i: &Inst, w: &Worlds, fact: &Option<LF>) -> Vec<String> {
     out
 }
 
-/// number of facts having two minimal proofs of different derivation height (positive programs)
+/// Number of facts with a minimal proof that needs more rounds than the fact's first
+/// derivation when all inputs are present (positive programs).  Every derivation tree whose
+/// leaves lie in the minimal world m has depth >= height(f | m), so at the round of the first
+/// derivation the tag cannot yet contain that proof: it has to arrive as an improvement.
 fn late_improved_facts(w: &Worlds) -> usize {
     if !w.positive {
         return 0;
     }
+    let full = (1usize << w.n) - 1;
     let mut n = 0;
     for fi in 0..w.facts.len() {
-        let mp = w.minimal_proofs(fi);
-        if mp.len() < 2 {
-            continue;
-        }
-        let hs: BTreeSet<u32> = mp.iter().map(|m| *w.heights[*m].get(&fi).unwrap_or(&0)).collect();
-        if hs.len() > 1 {
+        let h_full = match w.heights[full].get(&fi) {
+            Some(h) => *h,
+            None => continue,
+        };
+        if w.minimal_proofs(fi).iter().any(|m| *w.heights[*m].get(&fi).unwrap_or(&0) > h_full) {
             n += 1;
         }
     }
@@ -1334,7 +1387,7 @@ fn gen_skel(r: &mut Rng, family: &str, cap: usize) -> Skel {
         "late" => gen_late(r, cap),
         "random" => gen_random(r, cap),
         "negation" => {
-            let c2 = cap.min(7).max(2);
+            let c2 = if cap > 8 { 10 } else { cap.max(2) };
             let mut s = match r.below(4) {
                 0 => gen_tc(r, c2),
                 1 => gen_diamond(r, c2),
@@ -1411,8 +1464,10 @@ fn flush(ctx: &mut Ctx, st: &Stats, tag: &str) {
     ctx.count("runs_where_returned_facts_equal_store_delta", st.returned_equals_store_delta);
     ctx.count("runs_where_returned_facts_differ_from_store_delta", st.returned_differs_from_store_delta);
     ctx.count("explicit_tags_seen", st.explicit_tags);
+    ctx.count("rdf_star_probability_rows_checked", st.exported_rows);
     ctx.count("dnf_formula_evaluations_in_worlds", st.formula_world_checks);
     ctx.count("facts_present_with_probability_0", st.zero_probability_facts_present);
+    ctx.count("dnf_runs_whose_formulas_differ_syntactically_from_an_identical_run", st.formulas_differ_syntactically_between_identical_runs);
 }
 
 /// approximate modes: observation counters only
@@ -1449,10 +1504,12 @@ fn observe_approximate(ctx: &mut Ctx, inst: &Inst, w: &Worlds, order_seed: u64) 
 
 fn run_family(ctx: &mut Ctx, family: &str, total: u64, cap: usize, share: f64) {
     ctx.phase(family, total);
-    while let Some(kc) = ctx.next_case() {
-        if !ctx.within(share) {
+    let mut over_share = false;
+    while let Some(kc) = if over_share { None } else { ctx.next_case() } {
+        // each family gets a share of the workload cap; checked after a completed case
+        over_share = !ctx.within(share);
+        if over_share {
             ctx.count(&format!("share_of_budget_used_up_in_phase.{}", family), 1);
-            break;
         }
         let mut r = ctx.rng(kc);
         // size: small cases are frequent, the cap is reached regularly
@@ -1515,9 +1572,6 @@ fn run_family(ctx: &mut Ctx, family: &str, total: u64, cap: usize, share: f64) {
                 }
             }
         }
-        for f in &base.certain {
-            let _ = f;
-        }
         ctx.note("families", &base.family);
         for rl in &base.rules {
             ctx.note("rule_shapes", &format!("{}pos/{}neg/{}filter/{}head", rl.pos.len(), rl.neg.len(), rl.filters.len(), rl.head.len()));
@@ -1576,12 +1630,12 @@ fn run(ctx: &mut Ctx) {
     let cap = ctx.by_tier(8usize, 12usize);
     // (family, quick cases, thorough cases, cumulative share of the budget)
     let plan: [(&str, u64, u64, f64); 6] = [
-        ("tc", 700, 60_000, 0.22),
-        ("diamond", 700, 60_000, 0.40),
-        ("late", 600, 40_000, 0.55),
-        ("random", 1200, 120_000, 0.75),
-        ("negation", 900, 80_000, 0.92),
-        ("zero_one", 500, 40_000, 1.0),
+        ("tc", 3200, 8_000, 0.30),
+        ("diamond", 4500, 8_000, 0.46),
+        ("late", 3000, 5_000, 0.56),
+        ("random", 7500, 12_000, 0.76),
+        ("negation", 6000, 8_000, 0.93),
+        ("zero_one", 3000, 4_000, 1.0),
     ];
     for (family, q, t, share) in plan {
         let total = ctx.by_tier(q, t);
@@ -1599,7 +1653,7 @@ fn main() {
         "comparison tolerance 1e-9 for every assignment; smaller non-zero differences are counted (differences_below_1e-9_not_flagged) - with dyadic k/16 probabilities the oracle sums are exact in f64",
         "trusted base: kvcore::mdatalog backtracking evaluator run once per world, weight products, bitset bookkeeping",
     ];
-    spec.quick_budget_s = 30;
+    spec.quick_budget_s = 50;
     spec.thorough_budget_s = 600;
     kvcore::run(spec, run);
 }
